@@ -14,8 +14,7 @@ Qed.
 
 Lemma memb_false : forall n l, memb n l = false <-> ~ In n l.
 Proof.
-  intros n l. rewrite <- memb_In. destruct (memb n l); split; intros; try congruence; auto.
-  exfalso; auto.
+  intros n l. rewrite <- memb_In. destruct (memb n l); split; intros H; congruence.
 Qed.
 
 Lemma upd_same : forall f p v, upd f p v p = v.
@@ -77,7 +76,7 @@ Qed.
 Lemma NoDup_app_snoc : forall (l : list nat) x, NoDup l -> ~ In x l -> NoDup (l ++ [x]).
 Proof.
   induction l as [|a l IH]; simpl; intros x Hnd Hx.
-  - constructor; auto. constructor.
+  - constructor; [auto | constructor].
   - inversion Hnd; subst. constructor.
     + rewrite in_app_iff. simpl. intros [?|[?|[]]]; auto.
     + apply IH; auto.
@@ -233,9 +232,9 @@ Lemma os_open_fail : forall o p o1, os_open o p = (o1, None) ->
   trace o1 = trace o ++ [EOpen p None].
 Proof.
   intros o p o1 H. unfold os_open in H.
-  destruct (match p with EmptyString => true | _ => match cscr o (nopen o) with CFailOpen => true | _ => false end end);
-    inversion H; subst; simpl; auto.
-  destruct (fs o p); discriminate.
+  destruct (match p with EmptyString => true | _ => match cscr o (nopen o) with CFailOpen => true | _ => false end end).
+  - inversion H; subst; simpl; repeat split; auto.
+  - cbv zeta in H. discriminate.
 Qed.
 
 Lemma os_open_ok : forall o p o1 fd, os_open o p = (o1, Some fd) ->
@@ -247,7 +246,7 @@ Proof.
   intros o p o1 fd H. unfold os_open in H.
   destruct (match p with EmptyString => true | _ => match cscr o (nopen o) with CFailOpen => true | _ => false end end) eqn:R;
     [discriminate|].
-  inversion H; subst. destruct (fs o p); simpl; repeat split; auto; intros ->; discriminate.
+  cbv zeta in H. inversion H; subst. destruct (fs o p); simpl; repeat split; auto; intros ->; discriminate.
 Qed.
 
 Lemma Led_open_fail : forall own o p o1, Led own o -> os_open o p = (o1, None) -> Led own o1.
@@ -341,7 +340,7 @@ Lemma Led_file_write : forall own o n off buf o' ok,
 Proof.
   intros own o n off buf o' ok L Hn H. apply file_write_wr_inv in H.
   destruct H as (Ht & Hk & He & Hf & evs & Htr & Hall). split; auto.
-  eapply Led_same_tbl; eauto. now apply ledger_writes.
+  eapply (Led_same_tbl own own o o' evs); eauto. eapply ledger_writes; eauto.
 Qed.
 
 (* -- file_create -- *)
